@@ -143,6 +143,11 @@ def subexperiment_case(desc, run, label, z, j):
     decompose_qpd_instructions(new_qc, ids, map_ids, inplace=True)
     dec = ctx.canon_circuit(new_qc)
     kq = new_qc.cregs[-1].size
+    # the subexperiment with NO reset removed at all: reference for "values unaffected by these removals"
+    ref_qc = new_qc.copy()
+    CE._append_measurement_circuit(ref_qc, cog, inplace=True)
+    ref = ctx.canon_circuit(ref_qc)
+    obs_bits = [new_qc.find_bit(c).index for c in new_qc.cregs[-2]]
     contracts = {
         "qpd_measurements_is_last_register": new_qc.cregs[-1].name == "qpd_measurements",
         "observable_measurements_precedes_it": len(new_qc.cregs) >= 2 and new_qc.cregs[-2].name == "observable_measurements",
@@ -155,6 +160,7 @@ def subexperiment_case(desc, run, label, z, j):
                  g=letters_of(cog.general_observable), idx=[int(i) for i in cog.pauli_indices],
                  dec=dec, kq=kq, out=out)
     case = dict(kind="subexperiment", desc=desc, pick=[_jsonable(label), z, j], canon=canon,
+                ref=ref, ncl=new_qc.num_clbits, ignored_bits=([] if cog.pauli_indices else obs_bits),
                 full=run["full"], full_benv=run["full_benv"], obs_full=run["obs_full"],
                 count_ops={k: int(v) for k, v in real.count_ops().items()})
     return case, contracts
@@ -200,6 +206,118 @@ def problem_has_no_reuse(full, benv, obs_full):
     return (not why), why
 
 
+
+# --------------------------------------------------------------------------------------
+# independent density-matrix branch simulator (numpy only; gate matrices from Operator(gate).data)
+# state: {classical bit tuple: unnormalised density matrix as a tensor with 2n axes}; qubit q <-> row axis n-1-q
+# --------------------------------------------------------------------------------------
+SIM_MAX_QUBITS = 5
+_P0 = np.array([[1, 0], [0, 0]], dtype=complex)
+_P1 = np.array([[0, 0], [0, 1]], dtype=complex)
+_X = np.array([[0, 1], [1, 0]], dtype=complex)
+_SWAP = np.array([[1, 0, 0, 0], [0, 0, 1, 0], [0, 1, 0, 0], [0, 0, 0, 1]], dtype=complex)
+_GATE_CACHE = {}
+
+
+def gate_matrix(name, params):
+    key = (name, tuple(params))
+    if key not in _GATE_CACHE:
+        from qiskit.circuit.library import get_standard_gate_name_mapping
+        from qiskit.quantum_info import Operator
+        g = get_standard_gate_name_mapping().get(name)
+        if g is None:
+            _GATE_CACHE[key] = None
+        else:
+            if params:
+                g = type(g)(*[float(x) for x in params])
+            _GATE_CACHE[key] = np.asarray(Operator(g).data, dtype=complex)
+    return _GATE_CACHE[key]
+
+
+def _apply(rho, M, qs, n):
+    """rho -> M rho M^dagger, M a 2^k x 2^k matrix acting on qubits qs (qs[0] = least significant index of M)."""
+    k = len(qs)
+    Mt = M.reshape([2] * (2 * k))
+    rows = [n - 1 - q for q in reversed(qs)]
+    t = np.tensordot(Mt, rho, axes=(list(range(k, 2 * k)), rows))
+    rho = np.moveaxis(t, list(range(k)), rows)
+    cols = [n + r for r in rows]
+    t = np.tensordot(Mt.conj(), rho, axes=(list(range(k, 2 * k)), cols))
+    return np.moveaxis(t, list(range(k)), cols)
+
+
+def _trace(rho, n):
+    return float(np.real(np.trace(rho.reshape(2 ** n, 2 ** n))))
+
+
+def simulate(circ, nq, ncl):
+    """canonical instruction list -> {clbit tuple: probability}, or None when an operation is not simulable."""
+    if nq > SIM_MAX_QUBITS:
+        return None
+    rho0 = np.zeros([2] * (2 * nq), dtype=complex)
+    rho0[(0,) * (2 * nq)] = 1.0
+    branches = {(0,) * ncl: rho0}
+
+    def reset(br, q):
+        return {b: _apply(r, _P0, [q], nq) + _apply(_apply(r, _P1, [q], nq), _X, [q], nq) for b, r in br.items()}
+
+    for d in circ:
+        op, qs = d["op"], d["qs"]
+        kind = op[0]
+        if kind == "barrier":
+            continue
+        if kind == "gate":
+            U = gate_matrix(op[2], op[3])
+            if U is None or U.shape[0] != 2 ** len(qs):
+                return None
+            branches = {b: _apply(r, U, qs, nq) for b, r in branches.items()}
+        elif kind == "reset":
+            branches = reset(branches, qs[0])
+        elif kind == "move":                      # Move.definition: reset(1); swap(0, 1)
+            branches = reset(branches, qs[1])
+            branches = {b: _apply(r, _SWAP, qs, nq) for b, r in branches.items()}
+        elif kind == "measure":
+            c = d["cs"][0]
+            new = {}
+            for b, r in branches.items():
+                for v, P in ((0, _P0), (1, _P1)):
+                    r2 = _apply(r, P, [qs[0]], nq)
+                    if _trace(r2, nq) > 1e-14:
+                        b2 = b[:c] + (v,) + b[c + 1:]
+                        new[b2] = new[b2] + r2 if b2 in new else r2
+            branches = new
+        else:
+            return None
+    return {b: _trace(r, nq) for b, r in branches.items()}
+
+
+def marginal(dist, ignored):
+    out = {}
+    for b, p in dist.items():
+        k = tuple(v for i, v in enumerate(b) if i not in ignored)
+        out[k] = out.get(k, 0.0) + p
+    return out
+
+
+def values_check(case):
+    """joint law of all classical bits (placeholder bit of an identity group marginalised out): final subexperiment vs
+    the same subexperiment with no reset removed.  Returns (status, detail), status in ok / differs / skipped."""
+    c = case["canon"]
+    if "ref" not in case:
+        return "skipped", "no reference circuit recorded"
+    a = simulate(case["ref"], c["nq"], case["ncl"])
+    b = simulate(c["out"], c["nq"], case["ncl"])
+    if a is None or b is None:
+        return "skipped", f"not simulated ({c['nq']} qubits or an unknown operation)"
+    a, b = marginal(a, case["ignored_bits"]), marginal(b, case["ignored_bits"])
+    worst = max(abs(a.get(k, 0.0) - b.get(k, 0.0)) for k in set(a) | set(b))
+    if worst > 1e-9:
+        k = max(set(a) | set(b), key=lambda k: abs(a.get(k, 0.0) - b.get(k, 0.0)))
+        return "differs", (f"joint law of the classical bits changed by the reset removals: outcome {k} has probability "
+                           f"{a.get(k, 0.0):.6f} without removals and {b.get(k, 0.0):.6f} in the returned subexperiment "
+                           f"(max deviation {worst:.3e})")
+    return "ok", f"classical-bit law unchanged (max deviation {worst:.1e})"
+
 def wire_sequences(out, nq):
     return [[d["op"][0] for d in out if q in d["qs"]] for q in range(nq)]
 
@@ -224,9 +342,13 @@ def judge(case):
         probs.append(f"no qubit is re-used, yet the subexperiment (partition {case['pick'][0]}, sample {case['pick'][1]}, "
                      f"group {case['pick'][2]}, pauli_indices {c['idx']}) contains {nreset} reset(s): "
                      f"wires {wires}")
+    vst, vdetail = values_check(case)
+    if vst == "differs":
+        probs.append(vdetail)
     if probs:
         return dict(violates=True, detail="; ".join(probs))
-    return dict(violates=False, detail=("no re-use: reset-free" if nr else "re-use (" + "; ".join(why[:2]) + "): post-conditions hold"))
+    return dict(violates=False, detail=("no re-use: reset-free" if nr else "re-use (" + "; ".join(why[:2]) + "): post-conditions hold")
+                + "; values: " + vdetail)
 
 
 def rerun(case):
@@ -353,7 +475,7 @@ def gen_moves(rng, reuse):
     # re-use chain
     items.append(["g", "h", [], [0]])
     cur = 0
-    nmoves = int(rng.integers(2, 4))
+    nmoves = int(rng.integers(2, 5))
     for m in range(nmoves):
         dst = (cur + 1) % nq if rng.integers(0, 2) else int(rng.choice([q for q in range(nq) if q != cur]))
         items.append(["move", cur, dst])
@@ -379,6 +501,17 @@ FIXED = [
     # a re-use chain: move 0->1, keep using 0, move back
     dict(nq=2, items=[["g", "h", [], [0]], ["move", 0, 1], ["g", "x", [], [0]], ["g", "s", [], [1]], ["move", 1, 0],
                       ["g", "h", [], [0]]], obs=["ZI", "IX"], flow="single", labels=None, num_samples="inf", seed=5),
+    # observables that are NOT the identity on a Move source (qubit 1), which no gate touches after the Move
+    dict(nq=3, items=[["g", "ry", [fr(0.7)], [0]], ["g", "cx", [], [0, 1]], ["g", "ry", [fr(0.4)], [1]], ["move", 1, 2],
+                      ["g", "ry", [fr(0.3)], [2]]], obs=["ZZI", "ZZZ", "XZZ", "ZXZ", "ZYI"], flow="labels", labels="AAB",
+         num_samples="inf", seed=6),
+    dict(nq=2, items=[["g", "h", [], [0]], ["move", 0, 1], ["g", "s", [], [1]]], obs=["ZX", "IY"], flow="single", labels=None,
+         num_samples="inf", seed=7),
+    # ping-pong chains: two (three) separate runs of doubled resets in ONE circuit, so _consolidate_resets deletes several
+    dict(nq=2, items=[["g", "h", [], [0]], ["move", 0, 1], ["g", "s", [], [1]], ["move", 1, 0], ["g", "h", [], [0]],
+                      ["move", 0, 1], ["g", "sx", [], [1]]], obs=["ZI", "XZ"], flow="single", labels=None, num_samples="inf", seed=8),
+    dict(nq=3, items=[["g", "h", [], [0]], ["move", 0, 1], ["move", 1, 2], ["g", "cx", [], [2, 0]], ["move", 2, 1],
+                      ["move", 1, 0], ["g", "h", [], [2]]], obs=["ZZZ", "IXI"], flow="single", labels=None, num_samples=6, seed=9),
 ]
 
 
@@ -429,6 +562,7 @@ def emit_problem(w, rng, stream, desc, per_problem):
         nreset = sum(1 for d in c["out"] if d["op"][0] == "reset")
         ndec = sum(1 for d in c["dec"] if d["op"][0] == "reset")
         w.add(stream, "chk_subexperiment", coq_case(c), case, nontrivial=ndec > 0)
+        w.count(stream + ".values_check", values_check(case)[0])
         w.count(stream + ".dummy_measurement", not c["idx"])
         w.count(stream + ".resets_before_passes", min(ndec, 4))
         w.count(stream + ".resets_left", min(nreset, 3))
@@ -440,13 +574,38 @@ def emit_problem(w, rng, stream, desc, per_problem):
 def generate(rng, tier, outdir):
     w = CaseWriter(outdir, IMPORTS, case_types={"chk_subexperiment": "c19_case"})
     quick = tier == "quick"
-    n_markers = 52 if quick else 520
-    n_fresh = 20 if quick else 160
-    n_reuse = 20 if quick else 160
+    n_markers = 44 if quick else 460
+    n_onsrc = 18 if quick else 160
+    n_fresh = 16 if quick else 140
+    n_reuse = 16 if quick else 140
     per_problem = 8 if quick else 12
 
     for desc in FIXED:
         emit_problem(w, rng, "fixed", dict(desc), 64)
+
+    # hand-placed Moves onto fresh qubits, observables NON-identity on the abandoned source qubits (a use of the
+    # source: resets may survive; post-conditions and the classical-bit law must hold)
+    for it in range(n_onsrc):
+        nq, items, dead = gen_moves(rng, reuse=False)
+        obs = []
+        for o in rand_obs(rng, nq, ["dense", "sparse"][it % 2]):
+            ls = list(o)
+            for q in dead:
+                if ls[len(ls) - 1 - q] == "I" and (it % 4 or q == dead[0]):
+                    ls[len(ls) - 1 - q] = "XYZ"[int(rng.integers(0, 3))]
+            obs.append("".join(ls))
+        obs = list(dict.fromkeys(obs))
+        flow = ["labels", "auto", "single"][it % 3]
+        labels = None
+        if flow == "labels":
+            mv = [x for x in items if x[0] == "move"]
+            for _ in range(8):
+                labels = "".join("AB"[int(rng.integers(0, 2))] for _ in range(nq))
+                if any(labels[m[1]] != labels[m[2]] for m in mv):
+                    break
+        ns = "inf" if it % 3 else int(rng.integers(1, 7))
+        desc = dict(nq=nq, items=items, obs=obs, flow=flow, labels=labels, num_samples=ns, seed=int(rng.integers(0, 2**31)))
+        emit_problem(w, rng, "moves_obs_on_source", desc, per_problem)
 
     for it in range(n_markers):
         nq, items = gen_markers(rng)
@@ -490,12 +649,16 @@ def generate(rng, tier, outdir):
     return w.finish(
         rule="problems: (markers) random circuits on 1..4 qubits, 0..6 gates, 1..3 CutWire markers at any position (first/last "
         "on a wire, several on one wire; markers of one qubit contiguous in the marker list), through cut_wires + "
-        "expand_observables; (moves_fresh) hand-placed Moves onto fresh qubits from abandoned qubits; (moves_reuse) Move chains that "
+        "expand_observables; (moves_fresh) hand-placed Moves onto fresh qubits from abandoned qubits; (moves_obs_on_source) the same with "
+        "observables that are NOT the identity on the abandoned source qubits (counts as a use); (moves_reuse) Move chains that "
         "re-use qubits. Observables: 1..3 Pauli strings, dense / single-letter / identity-only (identity on whole partitions); "
         "flows: partition_problem with automatic labels, with explicit random A/B labels (crossing gates are cut too), and the "
         "unseparated call; budgets inf and 1..6. Per problem the sampling is replayed under the same numpy seed and for up to "
         "8 (thorough 12) (partition, sample, group) triples - every (partition, group) at least once, every identity group - the "
         "pre-pass circuit is rebuilt through _append_measurement_register / decompose_qpd_instructions(inplace=True) and "
-        "compared, together with the returned subexperiment, with Model/ResetFree.v. distinct = distinct Coq case literal; "
+        "compared, together with the returned subexperiment, with Model/ResetFree.v. The judge additionally simulates (own numpy "
+        "density-matrix branch simulator, <= 5 qubits, histogram *.values_check) the returned subexperiment and the same "
+        "subexperiment with no reset removed and demands the same joint law of all classical bits (placeholder bit of an "
+        "identity group marginalised out). distinct = distinct Coq case literal; "
         "non-trivial = the decomposed circuit contains at least one reset"
     )
